@@ -85,6 +85,8 @@ def full_tomography(N, conn, mq, prover, with_density=True, variant="plain"):
     circs = tm.full_state_tomography_circuits(prep, conn, mq)
     if len(circs) != 2 ** m + 1:
         return ["expected %d circuits, got %d" % (2 ** m + 1, len(circs))], {}
+    if len(prep.data) != 0 or prep.num_clbits != ncl or any(c is prep for c in circs):
+        problems.append("full_state_tomography_circuits modified (or returned) the caller's preparation circuit")
     counts = []
     for c in circs:
         if c.num_qubits != N:
@@ -142,7 +144,10 @@ def stabilizer_measurement(N, conn, mq, R, S, ph, prover, with_density=True, var
         circ = tm.stabilizer_measurement_circuit(prep, stab, conn, mq)
     except (AssertionError, ValueError, RuntimeError, TypeError) as e:
         return ["stabilizer_measurement_circuit raised %s: %s" % (type(e).__name__, str(e)[:80])], {}
-    counts = _with_cregs(exact_counts(ztab.gates_of(circ, allow_measure=True), N), prep.num_clbits)
+    ncl0 = 2 if (variant == "cregs" and mq is not None) else 0
+    if len(prep.data) != 0 or prep.num_clbits != ncl0 or circ is prep:
+        problems.append("stabilizer_measurement_circuit modified (or returned) the caller's preparation circuit")
+    counts = _with_cregs(exact_counts([g for g in ztab.gates_of(circ, allow_measure=True)], N), ncl0)
     mlist = list(range(N)) if mq is None else list(mq)
     # unsigned group elements, as labels on the n listed qubits
     group = {}
